@@ -222,6 +222,36 @@ class Flattener(object):
             self._overridden[key] = over
         return self._overridden[key]
 
+    def is_generator(self, callee):
+        return any(isinstance(n, (ast.Yield, ast.YieldFrom)) for n in _own_nodes(callee.node))
+
+    def eligible_generator(self, callee, call):
+        """a private generator function whose yields are plain statements `yield e` outside any try, without `yield from`,
+        nested definitions or a `return <value>`"""
+        if not _is_private(callee.name) and not getattr(callee, 'local_closure', False):
+            return False
+        if self.accept is not None and not self.accept(callee):
+            return False
+        a = callee.node.args
+        if a.vararg or a.kwarg or a.kwonlyargs:
+            return False
+        if any(isinstance(x, ast.Starred) for x in call.args) or any(k.arg is None for k in call.keywords):
+            return False
+        own = list(_own_nodes(callee.node))
+        if any(isinstance(n, (ast.YieldFrom, ast.Await, ast.Global, ast.Nonlocal, ast.FunctionDef, ast.AsyncFunctionDef, ast.ClassDef))
+               for n in own):
+            return False
+        if any(isinstance(n, ast.Return) and n.value is not None for n in own):
+            return False
+        yields = [n for n in own if isinstance(n, ast.Yield)]
+        stmt_yields = [n for n in own if isinstance(n, ast.Expr) and isinstance(n.value, ast.Yield)]
+        if not yields or len(yields) != len(stmt_yields):
+            return False
+        for n in own:
+            if isinstance(n, (ast.Try, ast.With)) and any(isinstance(x, ast.Yield) for x in ast.walk(n)):
+                return False
+        return True
+
     def eligible(self, callee, call):
         if not _is_private(callee.name) and not getattr(callee, 'local_closure', False):
             return False
@@ -525,6 +555,42 @@ class Flattener(object):
                 else:
                     inner_if = ast.copy_location(ast.If(test=rest, body=clone(stmt.body), orelse=stmt.orelse), stmt)
                     stmt = ast.copy_location(ast.If(test=first, body=stmt.body, orelse=[inner_if]), stmt)
+        # 2a. a loop over a private generator function: the loop body moves to the yields
+        #         for T in gen(a): BODY   ==>   <body of gen, every `yield e` replaced by  T = e; BODY>
+        #       (the two forms interleave producer and consumer identically; BODY may not break out of the loop)
+        if isinstance(stmt, ast.For) and isinstance(stmt.iter, ast.Call) and not stmt.orelse:
+            r = self.resolve(stmt.iter, cls)
+            if r is not None:
+                callee, receiver = r
+                if callee.key not in stack and len(stack) < MAX_DEPTH and self.is_generator(callee) and \
+                        self.eligible_generator(callee, stmt.iter) and all(_pure(a) for a in stmt.iter.args) and \
+                        all(_pure(k.value) for k in stmt.iter.keywords):
+                    try:
+                        consumer = self._loop_body_without_jumps(stmt.body)
+                        pre, exprs, renames, k = self.bind(callee, stmt.iter, receiver)
+                        body = [_Subst(exprs, renames).visit(clone(b)) for b in _body_without_doc(callee.node)]
+                        body, _ = self.convert(body, None, True)
+                        target = stmt.target
+
+                        class Place(ast.NodeTransformer):
+                            def visit_FunctionDef(self, n):
+                                return n
+
+                            def visit_Expr(self, n):
+                                if isinstance(n.value, ast.Yield):
+                                    v = n.value.value if n.value.value is not None else ast.copy_location(ast.Constant(value=None), n)
+                                    asg = ast.copy_location(ast.Assign(targets=[clone(target)], value=v), stmt)
+                                    return [asg] + [clone(c) for c in consumer]
+                                return n
+                        placed = []
+                        for b in body:
+                            rr = Place().visit(b)
+                            placed.extend(rr if isinstance(rr, list) else [rr])
+                    except _NoInline:
+                        self.skipped.append(callee.key)
+                    else:
+                        self.inlined.append(callee.key)
+                        return self._rewrite_mixed(pre + _fill_empty(placed), cls, callee, stack)
         # 2. statement-level helpers in hoistable positions
         for call in self.hoistable_calls(stmt):
             r = self.resolve(call, cls)
@@ -591,6 +657,51 @@ class Flattener(object):
             for h in stmt.handlers:
                 h.body = self.rewrite_block(h.body, cls, stack)
         return [stmt]
+
+    def _rewrite_mixed(self, stmts, cls, callee, stack):
+        """statements that mix producer code (class of the generator) and consumer code (class of the caller): for a
+        method of the same class both are the same; otherwise calls are resolved in the caller's class only"""
+        return self.rewrite_block(stmts, cls, stack + [callee.key])
+
+    def _loop_body_without_jumps(self, body):
+        """the consumer's loop body with `continue` turned into structure (guard clauses); `break` cannot be kept"""
+        def own_jumps(stmts, kinds):
+            out = []
+
+            def walk(n):
+                if isinstance(n, kinds):
+                    out.append(n)
+                if isinstance(n, (ast.For, ast.While, ast.FunctionDef, ast.ClassDef, ast.Lambda)):
+                    return
+                for c in ast.iter_child_nodes(n):
+                    walk(c)
+            for st in stmts:
+                walk(st)
+            return out
+        if own_jumps(body, (ast.Break,)):
+            raise _NoInline()
+        conts = own_jumps(body, (ast.Continue,))
+        if not conts:
+            return list(body)
+        if _contains(body, ast.Return):
+            raise _NoInline()
+        # `continue` ends the consumer's turn like `return` ends a helper: reuse the return conversion
+
+        class C2R(ast.NodeTransformer):
+            def visit_For(self, n):
+                return n
+
+            def visit_While(self, n):
+                return n
+
+            def visit_FunctionDef(self, n):
+                return n
+
+            def visit_Continue(self, n):
+                return ast.copy_location(ast.Return(value=None), n)
+        tmp = [C2R().visit(clone(b)) for b in body]
+        out, _ = self.convert(tmp, None, True)
+        return out
 
     def coalesce_tuple_result(self, body, stmt, res):
         """a, b = helper(...) where every return of the helper is a tuple of its own locals: the locals take the names
@@ -752,6 +863,10 @@ class Flattener(object):
             if isinstance(s, ast.Try):
                 for h in s.handlers:
                     h.body = self.lower_comprehensions(h.body)
+            hoisted = self._hoist_generator_consumers(s)
+            if hoisted is not None:
+                out.extend(hoisted)
+                continue
             if isinstance(s, ast.Assign) and len(s.targets) == 1 and isinstance(s.targets[0], ast.Name) and \
                     isinstance(s.value, ast.ListComp) and len(s.value.generators) == 1 and \
                     (self.statement_helper_in(s.value, self.fi.cls, [self.fi.key]) or s.value.generators[0].ifs) and \
@@ -770,6 +885,94 @@ class Flattener(object):
                 self.inlined.append(self.fi.key + '::<comprehension>')
                 continue
             out.append(s)
+        return out
+
+    EAGER_CONSUMERS = ('list', 'tuple', 'sorted', 'join', 'sum', 'dict', 'set', 'frozenset', 'min', 'max', 'extend')
+
+    def _is_generator_call(self, e):
+        if not isinstance(e, ast.Call):
+            return False
+        r = self.resolve(e, self.fi.cls)
+        return r is not None and self.is_generator(r[0]) and self.eligible_generator(r[0], e)
+
+    def _hoist_generator_consumers(self, s):
+        """a private generator function consumed eagerly somewhere in a simple statement - `list(gen())`, `sep.join(gen())`,
+        `[f(x) for x in gen()]`, `sep.join(f(x) for x in gen())` - is consumed by an explicit loop in front of the statement:
+            tmp = []; for x in gen(): tmp.append(f(x));  <statement with tmp>
+        (the same elements in the same order; every consumer listed takes all elements before doing anything else)"""
+        if not isinstance(s, (ast.Assign, ast.AugAssign, ast.Return, ast.Expr)) or getattr(s, 'value', None) is None:
+            return None
+        found = None
+        for n in self.hoistable_nodes(s.value):
+            if isinstance(n, ast.Call):
+                nm = n.func.attr if isinstance(n.func, ast.Attribute) else (n.func.id if isinstance(n.func, ast.Name) else None)
+                if nm in self.EAGER_CONSUMERS and len(n.args) >= 1 and not n.keywords:
+                    a = n.args[0]
+                    if self._is_generator_call(a):
+                        found = (a, None, a, [], None)
+                        break
+                    if isinstance(a, (ast.GeneratorExp, ast.ListComp)) and len(a.generators) == 1 and self._is_generator_call(a.generators[0].iter):
+                        g = a.generators[0]
+                        found = (a, g.target, g.iter, g.ifs, a.elt)
+                        break
+            elif isinstance(n, ast.ListComp) and len(n.generators) == 1 and self._is_generator_call(n.generators[0].iter):
+                g = n.generators[0]
+                found = (n, g.target, g.iter, g.ifs, n.elt)
+                break
+        if found is None:
+            return None
+        node, target, it, ifs, elt = found
+        k = next(self.counter)
+        tmp = self.fresh('_items', k)
+        if target is None:
+            ev = self.fresh('_item', k)
+            target = ast.Name(id=ev, ctx=ast.Store())
+            elt = ast.Name(id=ev, ctx=ast.Load())
+        app = ast.Expr(value=ast.Call(func=ast.Attribute(value=ast.Name(id=tmp, ctx=ast.Load()), attr='append', ctx=ast.Load()),
+                                      args=[elt], keywords=[]))
+        body = [ast.copy_location(app, s)]
+        for cond in reversed(ifs):
+            body = [ast.copy_location(ast.If(test=cond, body=body, orelse=[]), s)]
+        loop = ast.copy_location(ast.For(target=target, iter=it, body=body, orelse=[], type_comment=None), s)
+        init = ast.copy_location(ast.Assign(targets=[ast.Name(id=tmp, ctx=ast.Store())], value=ast.List(elts=[], ctx=ast.Load())), s)
+        new_s = _ReplaceNode(node, ast.copy_location(ast.Name(id=tmp, ctx=ast.Load()), node)).visit(s)
+        ast.fix_missing_locations(loop)
+        self.inlined.append(self.fi.key + '::<generator consumer>')
+        more = self._hoist_generator_consumers(new_s)
+        return [init, loop] + (more if more is not None else [new_s])
+
+    def hoistable_nodes(self, root):
+        """sub-expressions in unconditional, eagerly evaluated positions (calls and list comprehensions), innermost first"""
+        out = []
+
+        def walk(e):
+            if isinstance(e, ast.Call):
+                for a in e.args:
+                    walk(a)
+                for kw in e.keywords:
+                    walk(kw.value)
+                if isinstance(e.func, ast.Attribute):
+                    walk(e.func.value)
+                out.append(e)
+            elif isinstance(e, ast.ListComp):
+                out.append(e)
+            elif isinstance(e, ast.BoolOp):
+                walk(e.values[0])
+            elif isinstance(e, ast.IfExp):
+                walk(e.test)
+            elif isinstance(e, ast.BinOp):
+                walk(e.left)
+                walk(e.right)
+            elif isinstance(e, ast.UnaryOp):
+                walk(e.operand)
+            elif isinstance(e, (ast.Tuple, ast.List, ast.Set)):
+                for x in e.elts:
+                    walk(x)
+            elif isinstance(e, ast.Subscript):
+                walk(e.value)
+            elif isinstance(e, ast.Attribute):
+                walk(e.value)
+        walk(root)
         return out
 
     # ---- desugaring (exact rewritings into plain statements, so that rules see branches and loops) ----------------
